@@ -35,7 +35,7 @@ __all__ = [PushService.__name__]
 
 from ..api.tracepoint import TracePointConfig as TrPoCo, EventSnapshot, StackFrame as StFr, WatchResult as WaRe, \
     Variable as Var, VariableId as VarId
-from ..grpc import convert_value
+from ..grpc import convert_value, safe_text
 
 
 def __convert_tracepoint(tracepoint: TrPoCo):
@@ -45,11 +45,12 @@ def __convert_tracepoint(tracepoint: TrPoCo):
 
 
 def __convert_frame(frame: StFr):
-    return StackFrame(file_name=frame.file_name, short_path=frame.short_path, method_name=frame.method_name,
-                      line_number=frame.line_number, class_name=frame.class_name, is_async=frame.is_async,
+    return StackFrame(file_name=safe_text(frame.file_name), short_path=safe_text(frame.short_path),
+                      method_name=safe_text(frame.method_name),
+                      line_number=frame.line_number, class_name=safe_text(frame.class_name), is_async=frame.is_async,
                       column_number=frame.column_number, variables=[__convert_variable_id(v) for v in frame.variables],
                       app_frame=frame.app_frame,
-                      transpiled_file_name=frame.transpiled_file_name,
+                      transpiled_file_name=safe_text(frame.transpiled_file_name),
                       transpiled_line_number=frame.transpiled_line_number,
                       transpiled_column_number=frame.transpiled_column_number,
                       )
@@ -60,20 +61,20 @@ def __convert_watch_source(source):
 
 
 def __convert_watch(watch: WaRe):
-    return WatchResult(expression=watch.expression, good_result=__convert_variable_id(watch.result),
-                       error_result=watch.error, source=__convert_watch_source(watch.source))
+    return WatchResult(expression=safe_text(watch.expression), good_result=__convert_variable_id(watch.result),
+                       error_result=safe_text(watch.error), source=__convert_watch_source(watch.source))
 
 
 def __convert_variable(variable: Var):
-    return Variable(type=variable.type, value=variable.value, hash=variable.hash,
+    return Variable(type=safe_text(variable.type), value=safe_text(variable.value), hash=variable.hash,
                     children=[__convert_variable_id(c) for c in variable.children], truncated=variable.truncated)
 
 
 def __convert_variable_id(variable: VarId):
     if variable is None:
         return None
-    return VariableID(ID=variable.vid, name=variable.name, modifiers=variable.modifiers,
-                      original_name=variable.original_name)
+    return VariableID(ID=variable.vid, name=safe_text(variable.name), modifiers=variable.modifiers,
+                      original_name=safe_text(variable.original_name))
 
 
 def __convert_lookup(var_lookup):
@@ -95,11 +96,12 @@ def convert_snapshot(snapshot: EventSnapshot) -> Snapshot:
                         var_lookup=__convert_lookup(snapshot.var_lookup),
                         ts_nanos=snapshot.ts_nanos, frames=[__convert_frame(f) for f in snapshot.frames],
                         watches=[__convert_watch(w) for w in snapshot.watches],
-                        attributes=[KeyValue(key=k, value=convert_value(v)) for k, v in snapshot.attributes.items()],
+                        attributes=[KeyValue(key=safe_text(k), value=convert_value(v)) for k, v in
+                                    snapshot.attributes.items()],
                         duration_nanos=snapshot.duration_nanos,
-                        resource=[KeyValue(key=k, value=convert_value(v)) for k, v in
+                        resource=[KeyValue(key=safe_text(k), value=convert_value(v)) for k, v in
                                   snapshot.resource.attributes.items()],
-                        log_msg=snapshot.log_msg)
+                        log_msg=safe_text(snapshot.log_msg))
     except Exception:
         # todo should this return None?
         logging.exception("Error converting to protobuf")
